@@ -134,6 +134,12 @@ def cases(rng, tier):
                 if t2 is not None:
                     c["sub2"] = t2          # the same observable instance subscribed again: state must be per subscription
             c["msgs"] = T.to_cold(msgs) if src == "cold" else msgs
+            T.gen_tz(rng, c)                   # absolute boundaries written in a non-UTC zone (same instant)
+            if op == "timeout_with_mapper" and rng.random() < 0.3:
+                # the duration mapper omitted / None: no inter-element timeout at all (only first_timeout counts)
+                c["no_mapper"] = rng.choice(["omit", "none"])
+                c["inners"] = []
+                c["raise_at"] = None
             if op != "timeout_with_mapper":
                 T.gen_opsched(rng, c)          # operator-level scheduler (of the timeline) + a different subscribe-level scheduler
             if op in ("timeout", "timeout_with_mapper") and rng.random() < 0.3:
@@ -154,7 +160,7 @@ def impl(case):
     case = T.realize(case)          # the case as it is run (seconds); identical unless "scale" is set
 
     def when(c):
-        return T.utc(c["at"]) if c["abs"] else c["at"]
+        return T.in_tz(c, T.utc(c["at"])) if c["abs"] else c["at"]
 
     if op == "take_with_time":
         return T.run_test(case, lambda s, xs: xs.pipe(ops.take_with_time(case["d"], **T.sk(case, s))))
@@ -175,6 +181,10 @@ def impl(case):
 
         def build(s, xs, other):
             first = T.maybe_bare(case, T.mapper_observable(s, case["first"])) if case["first"] is not None else None
+            if case.get("no_mapper") == "omit":
+                return xs.pipe(ops.timeout_with_mapper(first, other=other))
+            if case.get("no_mapper") == "none":
+                return xs.pipe(ops.timeout_with_mapper(first, None, other))
             return xs.pipe(ops.timeout_with_mapper(first, T.make_mapper(s, case, off=1), other))
 
         return T.run_test(case, build, sources=("msgs", "other"))
@@ -309,6 +319,7 @@ def nontrivial(case, io):
 def bucket(case, io):
     yield from T.shape(case, io)
     yield f"{case['op']}:second-subscription={'sub2' in case}"
+    yield f"{case['op']}:tz={case.get('tz')}:no_mapper={case.get('no_mapper')}"
     yield f"{case['op']}:opsched={bool(case.get('opsched'))}:bare={bool(case.get('bare'))}"
     yield f"{case['op']}:scale={case.get('scale', 1)}:td={bool(case.get('td'))}"
     if case["op"] in ("take_with_time", "skip_with_time", "take_until_with_time", "skip_until_with_time"):
